@@ -63,7 +63,7 @@ Theorem sge_ref_iff start ref alt sge r :
     (forall x, vr_sge_ref r = Some x -> x = get_vcf_allele sge s).
 Proof.
   unfold mk_record. destruct (from_partial_start start ref alt) as [s|] eqn:Es; cbn [bind]; [|discriminate].
-  destruct (negb (zlen (get_vcf_allele sge s) =? zlen (get_vcf_allele ref s))); cbn [bind]; [discriminate|].
+  cbn [bind].
   destruct (is_nil (get_vcf_allele ref s) || is_nil (get_vcf_allele alt s)); [discriminate|].
   intros H; injection H as <-. exists s. split; [reflexivity|]. cbn [vr_sge_ref vr_ref].
   destruct (dna_eqb (get_vcf_allele sge s) (get_vcf_allele ref s)) eqn:E.
